@@ -211,28 +211,39 @@ theorem C05_extractors_code_key_only (h : Field.scope_classification ∉ CacheKe
   simp only [fieldMemo, plain, id, keyOf, extractorsDeps, List.map_cons, List.map_nil, e, e']
   decide
 
-example : Field.scope_classification ∉ [Field.code_key] := by decide
+example : Field.scope_classification ∉ [Field.code_key, Field.tree_kind] := by decide
+
+/-- the kind of tree (`tree.__class__`: a generator expression for `Entity.select(f)` / a whole query, the lambda body for
+    `filter(f)` / `where(f)` / `order_by(f)`) is part of the key as coded now (34cb497) … -/
+theorem C05_extractors_key_has_tree_kind : Field.tree_kind ∈ CacheKeys.extractorsKey := by decide
+
+/-- … and is needed: under the code key alone one lambda used as `Entity.select(f)` and then as `query.filter(f)` gets the
+    extractors of the other tree (`.0` included) -/
+theorem C05_extractors_needs_tree_kind :
+    ∃ F : List Val → List Val, ¬ Transparent (fieldMemo [.code_key] extractorsDeps F) :=
+  C05_field_key_needed _ _ .tree_kind (by decide) (by decide)
 
 /-- the repair that keeps the key and RE-VALIDATES a hit (the stored classification of the called names and the outer names
     against the new scope): transparent for every history, whatever the split computes -/
-theorem C05_extractors_recheck {V : Type} (F : ExIn → V) (hist : List (Op ExIn Int)) :
+theorem C05_extractors_recheck {V : Type} (F : ExIn → V) (hist : List (Op ExIn (Int × Int))) :
     run (exMemo true F) [] hist = hist.map (cold (exMemo true F)) := by
   apply C05_memo_history
   intro i j _ _ hk _ ha
-  obtain ⟨ci, si, oi⟩ := i
-  obtain ⟨cj, sj, oj⟩ := j
-  simp only [exMemo, Bool.not_true, Bool.false_or, Bool.and_eq_true, decide_eq_true_eq] at hk ha ⊢
+  obtain ⟨ci, ki, si, oi⟩ := i
+  obtain ⟨cj, kj, sj, oj⟩ := j
+  simp only [exMemo, Bool.not_true, Bool.false_or, Bool.and_eq_true, decide_eq_true_eq, Prod.mk.injEq] at hk ha ⊢
   obtain ⟨h1, h2⟩ := ha
-  subst hk; subst h1; subst h2
-  rfl
+  obtain ⟨hc, hkd⟩ := hk
+  subst hc; subst hkd; subst h1; subst h2
+  exact ⟨rfl, rfl⟩
 
 /-- without the re-validation the same two-call history as above goes wrong -/
 theorem C05_extractors_no_recheck :
-    ∃ hist : List (Op ExIn Int), run (exMemo false id) [] hist ≠ hist.map (cold (exMemo false id)) :=
-  ⟨[.call ⟨1, [0], []⟩, .call ⟨1, [1], []⟩], by decide⟩
+    ∃ hist : List (Op ExIn (Int × Int)), run (exMemo false id) [] hist ≠ hist.map (cold (exMemo false id)) :=
+  ⟨[.call ⟨1, 0, [0], []⟩, .call ⟨1, 0, [1], []⟩], by decide⟩
 
 /-- the code as it is (flag regenerated from the source) -/
-theorem C05_extractors_current {V : Type} (F : ExIn → V) (h : CacheKeys.extractorsRecheck = true) (hist : List (Op ExIn Int)) :
+theorem C05_extractors_current {V : Type} (F : ExIn → V) (h : CacheKeys.extractorsRecheck = true) (hist : List (Op ExIn (Int × Int))) :
     run (exMemo CacheKeys.extractorsRecheck F) [] hist = hist.map (cold (exMemo CacheKeys.extractorsRecheck F)) := by
   rw [h]; exact C05_extractors_recheck F hist
 
